@@ -27,7 +27,11 @@ FILES = {
     "src/containers/qvector.c": ["C10", "C15", "C14", "C13", "C12", "C11"],
     "src/internal/qinternal.h": ["C14", "C13", "C15", "C09"],
     "src/extensions/qlog.c": ["C14"],
+    # shared utilities the containers are built on (only the functions the containers call, see RANGES)
+    "src/utilities/qstring.c": ["C01", "C12", "C11", "C15"],
+    "src/utilities/qhash.c": ["C05", "C06", "C07", "C11", "C08"],
 }
+RANGES = {"src/utilities/qstring.c": [(413, 426)], "src/utilities/qhash.c": [(67, 96), (263, 318)]}
 SKIP_FUNCS = re.compile(r"_debug\b|print_node|print_branch|_q_textout")
 
 
@@ -37,8 +41,12 @@ def code_lines(path):
     in_comment = False
     depth = 0
     skipping = False
+    rng = RANGES.get(path) if "RANGES" in globals() else None
     for i, line in enumerate(src):
         s = line.strip()
+        if rng and not any(lo <= i + 1 <= hi for lo, hi in rng):
+            # still track comments/braces below, but never yield
+            pass
         if in_comment:
             if "*/" in s:
                 in_comment = False
@@ -75,6 +83,11 @@ SDL = re.compile(r"^\s+(free\(|\w+_unlock\(|\w+->unlock\(|Q_MUTEX_LEAVE\(|[\w\->
 CONST = [("true", "false"), ("false", "true"), ("NULL;", "(void*)1;"), (" 0;", " 1;"), ("-1", "0")]
 
 
+def _in_range(path, i):
+    rng = RANGES.get(path)
+    return (not rng) or any(lo <= i + 1 <= hi for lo, hi in rng)
+
+
 def gen(per_file, seed, ops2=False, prefix="M"):
     rnd = random.Random(seed)
     os.makedirs(OUT, exist_ok=True)
@@ -82,6 +95,8 @@ def gen(per_file, seed, ops2=False, prefix="M"):
     for path in FILES:
         cands = []
         for i, line in code_lines(path):
+            if not _in_range(path, i):
+                continue
             for group, name in (() if ops2 else ((ROR, "ROR"), (LCR, "LCR"), (AOR, "AOR"), (CONST, "CONST"))):
                 for a, b in group:
                     start = 0
